@@ -8,6 +8,7 @@ or a reason).
   `pr latex <e>`    the real text must pass the group matcher `texBalanced` (proved to accept every serialised TexTree)
   `pr unicode <e>`  all lines of the box have the same number of code points
   `pr julia|sbml`   oracle only
+  `pw <printer> <seed>`  a Piecewise rebuilt by the harness from the seed: the same checks on the real text (no model)
   `cat <k>`         catalogue item (classes the wire format cannot carry): the status line must have its five fields -/
 open SymVerif SymVerif.Expr SymVerif.Markup
 
@@ -53,7 +54,19 @@ def handle (line : String) : String :=
     else if op.startsWith "pr unicode " then
       if out.startsWith "E:" then "SKIP:throws"
       else if sameWidth ((String.ofList (decodeLines out.toList)).splitOn "\n") then "ok" else "FAIL:unicode-width"
-    else if op.startsWith "pr julia " || op.startsWith "pr sbml " then "SKIP:oracle-only"
+    else if op.startsWith "pw latex " then
+      if out.startsWith "E:" then "SKIP:throws"
+      else if texBalanced (String.ofList (decodeLines out.toList)) then "ok" else "FAIL:latex-groups"
+    else if op.startsWith "pw unicode " then
+      if out.startsWith "E:" then "SKIP:throws"
+      else if sameWidth ((String.ofList (decodeLines out.toList)).splitOn "\n") then "ok" else "FAIL:unicode-width"
+    else if op.startsWith "pw mathml " then
+      if out.startsWith "E:" then "SKIP:throws"
+      else match parseXml (String.ofList (decodeLines out.toList)) with
+        | some _ => "SKIP:unmodelled"
+        | none => "FAIL:xml-unreadable"
+    else if op.startsWith "pr julia " || op.startsWith "pr sbml " || op.startsWith "pw julia " || op.startsWith "pw sbml " then
+      "SKIP:oracle-only"
     else "bad-op"
   | _ => "bad-op"
 
